@@ -9,6 +9,9 @@
     sig <i> <0|1>                  ready check i: Unready() / Ready()
     sr <i> <status> <msg>          ready check i: replace the fixed answer
     sh <i> <status> <msg>          health check i: replace the fixed answer / Update the freshness response
+    sl <name>                      a run.StartupProgressLogger: ReadyChecker on /ready, HealthChecker on /health
+    se <k> <event>                 AddShard / CompletedShard / ShardLoadFailed / Finish on logger k
+    sp <name> <state> | ss <i> <state>   a run.SchedulerPulseCheck health check driven to idle / future / ontime / stalled
     ready | health | names         GET /ready, GET /health, ReadyCheckNames()
     conc <programs>                concurrent threads (last op of a case); answer = history, model answers `*`
 -/
@@ -23,6 +26,10 @@ open Influx.Spec.C33 (HOp HKind)
 
 def str (s : String) : Option String := hexToString s
 
+def parsePulse : String → Option Pulse
+  | "idle" => some .idle | "future" => some .future | "ontime" => some .onTime | "stalled" => some .stalled
+  | _ => none
+
 def parseOp : List String → Option Op
   | ["rg", n] => do some (.regGate (← str n))
   | ["rc", n, s, m] => do some (.regReady (← str n) (← str s) (← str m))
@@ -33,6 +40,23 @@ def parseOp : List String → Option Op
   | ["sig", i, b] => do some (.signal (← i.toNat?) (← parseBool b))
   | ["sr", i, s, m] => do some (.setReady (← i.toNat?) (← str s) (← str m))
   | ["sh", i, s, m] => do some (.setHealth (← i.toNat?) (← str s) (← str m))
+  | ["sl", n] => do some (.regStartup (← str n))
+  | ["se", k, ev] => do
+    let k ← k.toNat?
+    let ev ← (match ev.splitOn "." with
+      | ["add"] => some StartupEv.addShard
+      | ["done"] => some StartupEv.completedShard
+      | ["fail", id, m] => do some (StartupEv.shardFailed (← id.toNat?) (← str m))
+      | ["fin"] => some (StartupEv.finish none)
+      | ["finerr", m] => do some (StartupEv.finish (some (← str m)))
+      | _ => none)
+    some (.startupEv k ev)
+  | ["sp", n, st] => do
+    let (s, m) := pulseRes (← parsePulse st)
+    some (.regHealth (← str n) s m)
+  | ["ss", i, st] => do
+    let (s, m) := pulseRes (← parsePulse st)
+    some (.setHealth (← i.toNat?) s m)
   | ["ready"] => some .ready
   | ["health"] => some .health
   | ["names"] => some .names
